@@ -43,6 +43,16 @@ def main(tier: str) -> int:
     rng = pyrandom.Random(chk.seed)
     ops, ctx = [], []
     seed = chk.seed + 21
+    # "same seed, same model" also across interpreter starts: the same seeded fits in fresh processes with different string-hash salts
+    # (started here, collected at the end)
+    import os as _os
+    import subprocess
+    import sys as _sys
+    children = []
+    for hs in ("0", "7", "31337"):
+        env = dict(_os.environ, PYTHONHASHSEED=hs, PYTHONPATH=str(C.REPO / "src") + ":" + str(C.VERIF / "harness"))
+        children.append((hs, subprocess.Popen([_sys.executable, str(C.VERIF / "harness/c18_child.py"), str(C.VERIF / "harness")], env=env,
+                                              stdout=subprocess.PIPE, stderr=subprocess.PIPE, text=True)))
 
     label_sets = [("b", "yes"), (7, -3), ("zz", "m", "a"), (10, 2, 300)]
     wopts = [O.SHADE, O.SHAGA, O.jDE, O.DifferentialEvolution, O.GeneticAlgorithm, O.SelfCGA]
@@ -77,6 +87,7 @@ def main(tier: str) -> int:
             configs.append(("GPNNClassifier", lambda wo=wo, opt=opt, oa=oa, wa=wa: GeneticProgrammingNeuralNetClassifier(n_iter=2, pop_size=4, optimizer=opt, optimizer_args=dict(oa), weights_optimizer=wo, weights_optimizer_args=dict(wa), random_state=seed), "clf", 3))
 
     turn = {}
+    held = []      # fitted classifiers with what they first predicted: asked again after every other estimator has been fitted
     for ci, (name, make, kind, nlab) in enumerate(configs):
         d_feat = 2 + ci % 2
         if kind == "reg":
@@ -107,6 +118,8 @@ def main(tier: str) -> int:
         # ---- predict = independent evaluation of the stored model
         Xn = np.vstack([X[:5], X[:2] * 0.5])
         pred = est.predict(Xn)
+        if kind == "clf" and np.shape(pred) == (len(Xn),):
+            held.append((name, d, est, Xn.copy(), [str(v) for v in pred]))
         if np.shape(pred) != (len(Xn),):
             chk.fail("predict does not return one value per row of X", {**d, "rows": len(Xn), "shape": list(np.shape(pred)),
                                                                          "model": str(est.get_tree()) if hasattr(est, "tree_") else "net"}, {**feats, "clause": "predict_shape"})
@@ -214,6 +227,17 @@ def main(tier: str) -> int:
             chk.count("seed0_refit")
             if snaps0[0] != snaps0[1]:
                 chk.fail("two fits with random_state=0 give different models (other draws in between)", {**d, "random_state": 0}, {**feats, "clause": "seed"})
+    # ---- a fitted classifier keeps answering with ITS labels after other instances (other label sets) were fitted in the process
+    for name, d, est, Xh, first in held:
+        chk.count("asked_again_after_other_fits")
+        try:
+            again = [str(v) for v in est.predict(Xh)]
+        except Exception as e:  # noqa
+            again = ["raises " + repr(e)[:120]]
+        if again != first:
+            chk.fail("predict does not return the original class label of the arg-max column",
+                     {**d, "scenario": "predict on a fitted classifier after other classifiers (other label sets) were fitted in the same process",
+                      "predict_first": first[:4], "predict_later": again[:4]}, {"estimator": name, "clause": "labels_after_other_fits"})
     # ---- GP classifier: the label of the arg-max column on rows whose two probabilities tie exactly
     #      (stored trees that evaluate to 0 there: x0 - x1 on equal features, x0 on zeros, x0 * x1)
     from thefittest.base._tree import init_symbolic_regression_uniset
@@ -346,6 +370,26 @@ def main(tier: str) -> int:
     ctx.append(("check_args", {}, False))
     ops.append({"op": "est_check_args", "reserved": RESERVED_W, "args": ["elitism", "keep_history"]})
     ctx.append(("check_args", {}, True))
+
+    prints = {}
+    for hs, pr in children:
+        so, se = pr.communicate(timeout=900)
+        line = next((l for l in so.splitlines() if l.startswith("FINGERPRINT ")), None)
+        if line is None:
+            chk.fail("a seeded fit in a fresh interpreter raises", {"PYTHONHASHSEED": hs, "error": se[-300:]}, {"estimator": "GP", "clause": "raises"})
+        else:
+            prints[hs] = json.loads(line[len("FINGERPRINT "):])
+    chk.count("fresh_processes", len(prints))
+    chk.case(("fresh_processes",))
+    ks = sorted(prints)
+    for other in ks[1:]:
+        for name in prints[ks[0]]:
+            if prints[other][name] != prints[ks[0]][name]:
+                chk.fail("two fits with the same random_state give different models",
+                         {"estimator": name, "scenario": "the two fits run in two interpreter processes (different string-hash salts)", "PYTHONHASHSEED": [ks[0], other],
+                          "models": [str(prints[ks[0]][name]["tree"])[:200], str(prints[other][name]["tree"])[:200]]},
+                         {"estimator": name.split("/")[0], "clause": "same_seed_processes"})
+                break
 
     try:
         outs = C.lean_driver([json.dumps(o) for o in ops])
